@@ -652,7 +652,10 @@ struct sp_tr : base_tr
   }
   static std::size_t hash(type const &v, bool &ok)
   {
-    return agree(fcppt::shared_ptr_hash<type>{}(v), std_hash(v), ok);
+    std::size_t const h1 = agree(fcppt::shared_ptr_hash<type>{}(v), std_hash(v), ok);
+    // the hash may not depend on how many owners there are at the moment
+    type const another_owner{v};
+    return agree(h1, fcppt::shared_ptr_hash<type>{}(v), ok);
   }
 };
 
